@@ -76,6 +76,7 @@ impl Rng {
 
 thread_local! {
     static LAST_PANIC: RefCell<Option<String>> = const { RefCell::new(None) };
+    static IN_GUARD: std::cell::Cell<u32> = const { std::cell::Cell::new(0) };
 }
 pub static PANICS_SEEN: AtomicU64 = AtomicU64::new(0);
 
@@ -89,6 +90,11 @@ pub fn install_panic_hook() {
         } else {
             "<non-string panic>".to_string()
         };
+        if IN_GUARD.with(|g| g.get()) == 0 {
+            // a panic of the harness itself, outside any monitored engine call
+            eprintln!("harness panic: {msg} @ {loc}");
+            return;
+        }
         PANICS_SEEN.fetch_add(1, Ordering::Relaxed);
         LAST_PANIC.with(|p| *p.borrow_mut() = Some(format!("{msg} @ {loc}")));
     }));
@@ -96,7 +102,10 @@ pub fn install_panic_hook() {
 
 /// Runs `f`; a panic becomes `Err(message @ location)`.
 pub fn guard<T>(f: impl FnOnce() -> T) -> Result<T, String> {
-    match catch_unwind(AssertUnwindSafe(f)) {
+    IN_GUARD.with(|g| g.set(g.get() + 1));
+    let r = catch_unwind(AssertUnwindSafe(f));
+    IN_GUARD.with(|g| g.set(g.get() - 1));
+    match r {
         Ok(v) => Ok(v),
         Err(_) => Err(LAST_PANIC.with(|p| p.borrow_mut().take()).unwrap_or_else(|| "panic".into())),
     }
